@@ -166,6 +166,19 @@ pub fn spec(args: &[String]) -> i32 {
             if got != seg_toks(&want) { println!("FINDING c04-alpha rule={rule:?} segment={txt:?} bundle=({}) got=({got}) want=({})", seg_toks(s), seg_toks(&want)); }
         } } }
     }
+    // a bound alpha keeps its value at every later use: in `[αF, αG]` / `[αF, -αG]` (F before G in the matrix) G is compared with
+    // the value F had; a segment whose node for G is absent matches neither
+    let mut reuse = 0u64;
+    for (txt, s) in bases.iter().step_by(step) {
+        for i in 0..26 { for j in (i + 1)..26 { for inv in [false, true] {
+            let mut m = Mods::new(); m.feats[i] = M::Alpha('α'); m.feats[j] = if inv { M::Inv('α') } else { M::Alpha('α') };
+            let gm = impl_match(&m, *s);
+            let wm = match spec_feat(*s, i) { Some(b) => if spec_match(*s, j, b != inv) { "1" } else { "0" }, None => "0" };
+            n += 1; reuse += 1;
+            if gm != wm { println!("FINDING c04-alpha-reuse rule=\"{} > [tone:7]\" segment={txt:?} bundle=({}) got={gm} want={wm}", m.text(), seg_toks(s)); }
+        } } }
+    }
+    println!("STAT c04.alpha_reuse_cases {reuse}");
     println!("STAT c04.spec_cases {n}");
     println!("STAT c04.spec_nontrivial {nontrivial}");
     0
